@@ -40,12 +40,17 @@ def h_kernel(t, part):
     rs = RandomStub(t)
     waits, connects, finals = [], [], []
     state = {'aborted': False, 'succeeded': False}
-    with notrace():
-        c, eio, P = worlds.make_client(asyncio_, reconnection=True)
-    c.reconnection_delay = d
-    c.reconnection_delay_max = m
-    c.randomization_factor = f
-    c.reconnection_attempts = attempts
+    if part.get('ctor'):
+        # the parameters go through the constructor, as an application gives them (symbolic values inside __init__)
+        c, eio, P = worlds.make_client(asyncio_, reconnection=True, reconnection_delay=d, reconnection_delay_max=m,
+                                       randomization_factor=f, reconnection_attempts=attempts)
+    else:
+        with notrace():
+            c, eio, P = worlds.make_client(asyncio_, reconnection=True)
+        c.reconnection_delay = d
+        c.reconnection_delay_max = m
+        c.randomization_factor = f
+        c.reconnection_attempts = attempts
     c.connection_url, c.connection_headers, c.connection_auth = 'http://u', {'h': 1}, {'tok': 2}
     c.connection_transports, c.connection_namespaces, c.socketio_path = ['polling'], ['/', '/a'], 'sio'
 
@@ -433,7 +438,8 @@ def h_flow(t, part):
 
 def kernel_parts(tier):
     K = 5 if tier == 'quick' else 8
-    return [{'async': a, 'K': K, 'attempts': n} for a in (False, True) for n in range(4)]
+    return [{'async': a, 'K': K, 'attempts': n} for a in (False, True) for n in range(4)] + \
+           [{'async': a, 'K': 3, 'attempts': n, 'ctor': True} for a in (False, True) for n in (0, 2)]
 
 
 def flow_parts(tier):
